@@ -9,12 +9,14 @@
    the whole position, and exactly its collateral (minus the keeper reward) and its debt enter auctions."
 
   Model: KavaVerif/Model/Cdp.lean (x/cdp keeper transcribed; `calcCR` = CalculateCollateralizationRatio,
-  `c2d` = CalculateCollateralToDebtRatio, `normRatio` = LiquidateCdps' normalizedRatio, bit-exact sdk.Dec).
-  Only property statements live here; helper lemmas are in KavaVerif/Proofs/Cdp*.lean.
+  `c2d` = CalculateCollateralToDebtRatio, `normRatio` = LiquidateCdps' normalizedRatio, `blockSkips` = the
+  value-ratio re-check inside LiquidateCdps, `cappedShare` = the debt share a deposit gets in
+  AuctionCollateral; bit-exact sdk.Dec).  Only property statements live here; helper lemmas are in
+  KavaVerif/Proofs/Cdp*.lean.
 
-  Three parts of the prose are FALSE on the code as it stands (each has a `_counterexample` and the strongest
-  true `_partial` statement): block liquidation at exactly the ratio (F3), the price-feed gate on draw,
-  and "exactly its debt" for multi-deposit seizures (F2).
+  The three parts of the prose that were false on the original code are full theorems on the code as fixed
+  by bfd342e03 (debt shares), b28e8ed21 (block re-check), cb3596bb2 (draw gate); the former witnesses are
+  kept as `example`s showing the fixed model handles them.
 -/
 import KavaVerif.Proofs.CdpExample
 import KavaVerif.Generated.CdpFacts
@@ -28,13 +30,14 @@ open KV
 
 /-- The comparison shapes and the set of gated functions the model transcribes are the ones in the source:
     `ValidateCollateralizationRatio` and `WithdrawCollateral` refuse on `ratio.LT(L)` (model: `r.m < L.m → err`),
-    `ValidateLiquidation` refuses on `ratio.GTE(L)` (model: `r.m ≥ L.m → err`), and exactly `AddCdp`,
-    `DepositCollateral`, `WithdrawCollateral` call `ValidateCollateral` (the model's `validateCollateral`;
-    `AddPrincipal` does not — see `C05_feed_gate_draw_counterexample`).  A source edit that changes one of
-    these regenerates the table and re-opens this obligation. -/
+    `ValidateLiquidation` refuses on `ratio.GTE(L)` (model: `r.m ≥ L.m → err`), `LiquidateCdps` skips a selected
+    CDP on `valueRatio.GTE(L)` (model: `blockSkips`), and exactly `AddCdp`, `AddPrincipal`, `DepositCollateral`,
+    `WithdrawCollateral` call `ValidateCollateral` (the model's `validateCollateral`).  A source edit that
+    changes one of these regenerates the table and re-opens this obligation. -/
 theorem C05_source_gate_table :
     KV.Gen.cdpUserGateRefuses = "LT" ∧ KV.Gen.cdpWithdrawGateRefuses = "LT" ∧ KV.Gen.cdpKeeperGateRefuses = "GTE" ∧
-    KV.Gen.cdpFeedGateCallers = ["AddCdp", "DepositCollateral", "WithdrawCollateral"] := by decide
+    KV.Gen.cdpBlockRecheckSkips = "GTE" ∧
+    KV.Gen.cdpFeedGateCallers = ["AddCdp", "AddPrincipal", "DepositCollateral", "WithdrawCollateral"] := by decide
 
 /-! ### user gate -/
 
@@ -47,11 +50,12 @@ theorem C05_user_gate_withdraw {E : Env} {now : Int} {s s' : St} {owner deposito
       c2.ty = ty ∧ GateOk E s cp c2 ∧ s.status cp.spot = true ∧ s.status cp.liq = true :=
   withdraw_gate h
 
-/-- "No successful draw … leaves a CDP below its liquidation ratio at the current price" -/
+/-- "No successful draw … leaves a CDP below its liquidation ratio at the current price"
+    (and both market status flags were up) -/
 theorem C05_user_gate_draw {E : Env} {now : Int} {s s' : St} {owner : Acct} {ty : Nat} {p : Int} {pd : Denom}
     (h : draw E now s owner ty p pd = .ok s') :
     ∃ cp id c0 c2, E.P.colls[ty]? = some cp ∧ findCdp s owner ty = some (id, c0) ∧ s'.cdp id = some c2 ∧
-      c2.ty = ty ∧ GateOk E s cp c2 :=
+      c2.ty = ty ∧ GateOk E s cp c2 ∧ s.status cp.spot = true ∧ s.status cp.liq = true :=
   draw_gate h
 
 /-- a created CDP starts at or above the ratio -/
@@ -64,50 +68,39 @@ theorem C05_user_gate_create {E : Env} {now : Int} {s s' : St} {owner : Acct} {t
 /-- non-vacuity: the creation at exactly 150 % succeeds -/
 example : (create exEnv 100 exGenesis 3 0 3000000000 2 10000000 0).isOk = true := by decide +kernel
 
-/-! ### price-feed gate -/
+/-! ### price-feed gate: "creation, draw, deposit and withdrawal are refused while the collateral's price feed is down" -/
 
-/-- "creation … refused while the collateral's price feed is down" (either market status flag) -/
+/-- creation is refused when either market status flag is down -/
 theorem C05_feed_gate_create {E : Env} {now : Int} {s : St} {owner : Acct} {ty : Nat} {c : Int} {cd : Denom}
     {p : Int} {pd : Denom} {cp : CollParam} (hcp : E.P.colls[ty]? = some cp)
     (hdown : s.status cp.spot = false ∨ s.status cp.liq = false) :
     create E now s owner ty c cd p pd = .err := create_feed_gate hcp hdown
 
-/-- "deposit … refused while the collateral's price feed is down" -/
+/-- deposit is refused when either market status flag is down -/
 theorem C05_feed_gate_deposit {E : Env} {now : Int} {s : St} {owner depositor : Acct} {ty : Nat} {c : Int} {cd : Denom}
     {cp : CollParam} (hcp : E.P.colls[ty]? = some cp)
     (hdown : s.status cp.spot = false ∨ s.status cp.liq = false) :
     deposit E now s owner depositor ty c cd = .err := deposit_feed_gate hcp hdown
 
-/-- "withdrawal … refused while the collateral's price feed is down" -/
+/-- withdrawal is refused when either market status flag is down -/
 theorem C05_feed_gate_withdraw {E : Env} {now : Int} {s : St} {owner depositor : Acct} {ty : Nat} {c : Int} {cd : Denom}
     {cp : CollParam} (hcp : E.P.colls[ty]? = some cp)
     (hdown : s.status cp.spot = false ∨ s.status cp.liq = false) :
     withdraw E now s owner depositor ty c cd = .err := withdraw_feed_gate hcp hdown
 
-/-- FALSE for draw as stated ("draw … refused while the collateral's price feed is down"): `AddPrincipal` never
-    calls `ValidateCollateral`; with the liquidation market down (flag lowered, no price) and the spot market
-    up, a draw is accepted.  Witness: the CDP of `exAtRatio` after a further deposit, drawing 1 usdx. -/
-theorem C05_feed_gate_draw_counterexample :
-    exLiqDown.status exColl.liq = false ∧ exLiqDown.price exColl.liq = none ∧
-    (draw exEnv 200 (apply exEnv exAtRatio (.deposit 100 3 3 0 3000000000 2) |> fun s =>
-        { s with price := upd s.price 1 none, status := upd s.status 1 false }) 3 0 1000000 0).isOk = true := by
-  decide +kernel
+/-- draw is refused when either market status flag is down (since cb3596bb2 `AddPrincipal` starts with
+    `ValidateCollateral`) -/
+theorem C05_feed_gate_draw {E : Env} {now : Int} {s : St} {owner : Acct} {ty : Nat} {p : Int} {pd : Denom}
+    {cp : CollParam} (hcp : E.P.colls[ty]? = some cp)
+    (hdown : s.status cp.spot = false ∨ s.status cp.liq = false) :
+    draw E now s owner ty p pd = .err := draw_feed_gate hcp hdown
 
-/-- what is true for draw: it is refused unless the *spot* market has a price
-    (`CalculateCollateralizationRatio(spot)` must succeed and be ≥ L > 0) -/
-theorem C05_feed_gate_draw_partial {E : Env} {now : Int} {s s' : St} {owner : Acct} {ty : Nat} {p : Int} {pd : Denom}
-    (h : draw E now s owner ty p pd = .ok s') :
-    ∃ cp, E.P.colls[ty]? = some cp ∧ (0 < cp.liqRatio.m → ∃ price, s.price cp.spot = some price) := by
-  obtain ⟨cp, id, c0, c2, hcp, -, -, -, hg⟩ := draw_gate h
-  obtain ⟨r, hr, hge⟩ := hg
-  refine ⟨cp, hcp, ?_⟩
-  intro hL
-  unfold calcCR at hr
-  split at hr
-  · cases hr; exact absurd hge (by simp [Dec.zero]; omega)
-  · split at hr
-    · cases hr
-    · rename_i price hp; exact ⟨price, hp⟩
+/-- the former witness (finding F12): liquidation market down, spot market up, CDP at 300 % — the draw of
+    1 usdx that the original code accepted is now refused; with both feeds up it is accepted -/
+example : exLiqDownDeposited.status exColl.liq = false ∧
+    (draw exEnv 200 exLiqDownDeposited 3 0 1000000 0).isOk = false ∧
+    (draw exEnv 200 (apply exEnv exAtRatio (.deposit 100 3 3 0 3000000000 2)) 3 0 1000000 0).isOk = true := by
+  decide +kernel
 
 /-! ### keeper liquidation -/
 
@@ -128,31 +121,34 @@ example : (liquidate exEnv 100 exAtRatio 4 3 0).isOk = false := by decide +kerne
 
 /-! ### block liquidation -/
 
-/-- FALSE as stated ("never seized … by the block-level liquidator" when `CR_liq ≥ L`).
-    Witness from the property text: price 0.5, ratio 1.5, collateral 30 (conversion factor 8), debt 10 usdx:
-    the value ratio is exactly 1.5, yet `normalizedRatio = 1/(0.5/1.5) = 1/0.333333333333333333 =
-    3.000000000000000003 > 3.0 =` stored index ratio, so the range scan reaches the CDP. -/
-theorem C05_block_sound_counterexample :
-    ¬ (∀ (c d : Int) (cf : Nat) (price L : Dec), blockSelects (sortKey (c2d c cf d 6)) price L = true →
-        ∃ r, collRatio c cf d 0 6 price = some r ∧ r.m < L.m) := by
-  intro h
-  have := h 3000000000 10000000 8 ⟨500000000000000000⟩ ⟨1500000000000000000⟩ (by decide)
-  revert this
-  decide
+/-- "A CDP whose collateralization ratio at the liquidation price is at or above the liquidation ratio is
+    never seized … by the block-level liquidator" — function level: a CDP that `LiquidateCdps` does not skip
+    (the only ones it hands to `SeizeCollateral`) has `CalculateCollateralizationRatio(liquidation price) < L`. -/
+theorem C05_block_sound (E : Env) (c : Cdp) (price L : Dec) (hL : 0 < L.m)
+    (h : blockSkips E c price L = false) (r : Dec)
+    (hr : collRatio c.coll (cfOf E c.ty) c.prin c.fees E.P.debtCf price = some r) : r.m < L.m :=
+  blockSkips_sound E c price L hL h r hr
 
-/-- the same on the state machine: one begin block with unchanged prices removes the CDP that the user gate
-    accepted and the keeper gate refuses -/
-theorem C05_block_sound_counterexample_state :
-    (exAtRatio.cdp 1).isSome = true ∧
-    ((apply exEnv exAtRatio (.beginBlock 101 false [Dec.one])).cdp 1).isNone = true := by
+/-- … state level: every CDP that disappears in a `LiquidateCdps` pass had `CR_liq < L` at that moment -/
+theorem C05_block_sound_state {E : Env} {g : Int} {s s' : St} {ty : Nat} {cp : CollParam} {price : Dec}
+    (hW : WF E) (hI : Inv E g s) (hL : 0 < cp.liqRatio.m) (h : liquidateBlock E s ty cp price = .ok s')
+    (id : Nat) (c : Cdp) (ho : s.cdp id = some c) (hgone : s'.cdp id = none) (r : Dec)
+    (hr : collRatio c.coll (cfOf E c.ty) c.prin c.fees E.P.debtCf price = some r) : r.m < cp.liqRatio.m :=
+  blockSkips_sound E c price cp.liqRatio hL (liquidateBlock_sound hW hI h id c ho hgone) r hr
+
+/-- the former witness (finding F3: price 0.5, ratio 1.5, collateral 30, debt 10): the index scan still reaches
+    the CDP (`normalizedRatio = 3.000000000000000003 > 3.0`), the re-check skips it (`CR = 1.5 ≥ L`), and one
+    begin block with unchanged prices leaves it in place; after a price drop to 0.49 it is seized -/
+example : blockSelects (sortKey (c2d 3000000000 8 10000000 6)) ⟨500000000000000000⟩ ⟨1500000000000000000⟩ = true ∧
+    (exAtRatio.cdp 1).map (fun c => blockSkips exEnv c ⟨500000000000000000⟩ exColl.liqRatio) = some true ∧
+    ((apply exEnv exAtRatio (.beginBlock 101 false [Dec.one])).cdp 1).isSome = true ∧
+    ((apply exEnv { exAtRatio with price := fun _ => some ⟨490000000000000000⟩ } (.beginBlock 101 false [Dec.one])).cdp 1).isNone = true := by
   decide +kernel
 
-/-- what is true: a CDP the block liquidator reaches has `CR_liq < L + ε` with the explicit bound
-    `ε = 2 + L²·(10^18 + 2) / (2·price·10^36 − L·10^18 − 2L)` ulp (mantissa units of 10^-18), i.e.
-    `(CR − L − 2)·(2·price·P² − L·P − 2L) < L²·(P + 2)`; for price 0.5, L 1.5 this is `CR ≤ L + 6·10^-18`.
-    Hypotheses: debt of at least one whole usdx (`P ≤ debt base units`), price ≤ 10^18, the denominator
-    positive (price not below ~L·10^-18/2). -/
-theorem C05_block_sound_partial (c d : Int) (cf dcf : Nat) (price L : Dec) (hc : 0 ≤ c)
+/-- the index bound (soundness direction): a CDP the range scan reaches has `CR_liq < L + ε` with the explicit
+    bound `ε = 2 + L²·(10^18 + 2) / (2·price·10^36 − L·10^18 − 2L)` ulp, i.e.
+    `(CR − L − 2)·(2·price·P² − L·P − 2L) < L²·(P + 2)` — how far the scan can overshoot before the re-check. -/
+theorem C05_block_index_bound (c d : Int) (cf dcf : Nat) (price L : Dec) (hc : 0 ≤ c)
     (hd : P ≤ (baseUnits d dcf).m) (hd2 : (baseUnits d dcf).m < maxSortable.m)
     (hp : 0 < price.m) (hpU : price.m ≤ P * P) (hL : 0 < L.m)
     (hM : 0 < 2 * price.m * P * P - L.m * P - 2 * L.m)
@@ -186,33 +182,33 @@ theorem C05_block_sound_partial (c d : Int) (cf dcf : Nat) (price L : Dec) (hc :
     simp only [hD0, ite_false]
     exact ⟨_, rfl, hbound⟩
 
-/-- the bound is not vacuous: the witness of F3 satisfies every hypothesis, and there `CR = L` exactly -/
+/-- the bound is not vacuous: the former witness satisfies every hypothesis, and there `CR = L` exactly -/
 example : blockSelects (sortKey (c2d 3000000000 8 10000000 6)) ⟨500000000000000000⟩ ⟨1500000000000000000⟩ = true ∧
     collRatio 3000000000 8 10000000 0 6 ⟨500000000000000000⟩ = some ⟨1500000000000000000⟩ ∧
     P ≤ (baseUnits 10000000 6).m ∧ (0:Int) < 2 * 500000000000000000 * P * P - 1500000000000000000 * P - 2 * 1500000000000000000 := by
   decide
 
 /-- "the lowest-ratio CDPs below it … are seized when the liquidation interval comes round":
-    `LiquidateCdps` removes exactly the first `max(count,1)` entries of the type's ratio index whose stored
-    ratio is below `normalizedRatio` — every one of them is gone afterwards, every entry below the bound that
-    survives comes later in index order (lowest first), and the number taken is min(count, #below).
-    ("Beyond 18-decimal rounding": membership is decided by the stored index ratio against
-    `normalizedRatio`; `C05_block_sound_partial` bounds how far that is from `CR_liq < L`.) -/
-theorem C05_block_complete_partial {E : Env} {g : Int} {s s' : St} {ty : Nat} {cp : CollParam} {price : Dec}
+    `LiquidateCdps` walks exactly the first `max(count,1)` entries of the type's ratio index whose stored ratio is
+    below `normalizedRatio`; each of them is gone afterwards unless the re-check found `CR_liq ≥ L` (then it is
+    left untouched), every entry below the bound that was not taken comes later in index order (lowest first),
+    and the number taken is min(count, #below). -/
+theorem C05_block_complete {E : Env} {g : Int} {s s' : St} {ty : Nat} {cp : CollParam} {price : Dec}
     (hW : WF E) (hI : Inv E g s) (h : liquidateBlock E s ty cp price = .ok s') :
     let K := sortKey (normRatio price cp.liqRatio)
     let sel := takeCount cp.checkCount (below s.idx ty K)
-    (∀ e, e ∈ sel → s'.cdp e.2.2 = none) ∧
+    (∀ e, e ∈ sel → ∃ c, s.cdp e.2.2 = some c ∧
+        (if blockSkips E c price cp.liqRatio = true then s'.cdp e.2.2 = some c else s'.cdp e.2.2 = none)) ∧
     (∀ e, e ∈ sel → ∀ e', e' ∈ below s.idx ty K → e' ∉ sel → eLt e e' = true) ∧
     sel.length = min (if cp.checkCount ≤ 1 then 1 else cp.checkCount.toNat) (below s.idx ty K).length :=
   liquidateBlock_complete hW hI h
 
-/-- "… the lowest-ratio CDPs below it (beyond 18-decimal rounding) are seized": the range scan cannot miss a
-    CDP that is below the liquidation ratio by more than the rounding — a CDP whose stored index ratio is NOT
-    below `normalizedRatio` has `CR_liq > L − ε'`, `ε' = 2 + L²/(price·P + L) + price·(P+1)/P²` ulp
-    (`(CR + 2)·P²·(price·P + L) > price·(P³·L − (P+1)(price·P + L))` on mantissas).  Together with
-    `C05_block_complete_partial` (the pass takes the first `count` entries of the scan range, lowest first):
-    every CDP with `CR_liq ≤ L − ε'` lies in the scan range and is seized unless `count` lower entries precede it. -/
+/-- "… (beyond 18-decimal rounding)": the range scan cannot miss a CDP that is below the liquidation ratio by
+    more than the rounding — a CDP whose stored index ratio is NOT below `normalizedRatio` has
+    `CR_liq > L − ε'`, `ε' = 2 + L²/(price·P + L) + price·(P+1)/P²` ulp
+    (`(CR + 2)·P²·(price·P + L) > price·(P³·L − (P+1)(price·P + L))` on mantissas).  With `C05_block_complete`
+    and `C05_block_sound`: every CDP with `CR_liq ≤ L − ε'` lies in the scan range, is not skipped by the
+    re-check, and is seized unless `count` lower index entries precede it. -/
 theorem C05_block_complete_bound (c d : Int) (cf dcf : Nat) (price L : Dec) (hc : 0 < c)
     (hd : P ≤ (baseUnits d dcf).m) (hd2 : (baseUnits d dcf).m < maxSortable.m)
     (hp : 0 < price.m) (hL : 0 < L.m)
@@ -259,53 +255,57 @@ example : (liquidateBlock exEnv exAtRatio 0 exColl ⟨500000000000000000⟩).isO
     (below exAtRatio.idx 0 (sortKey (normRatio ⟨500000000000000000⟩ exColl.liqRatio))).length = 1 := by
   decide +kernel
 
-/-! ### a seizure takes the whole position -/
+/-! ### a seizure takes the whole position; the debt shares -/
 
-/-- "A seizure removes the whole position, and exactly its collateral (minus the keeper reward) … enter
-    auctions": after `SeizeCollateral` the CDP, its deposits (and, by the invariant, both index entries) are
-    gone, the auction module received exactly the deposit records handed to the seizure (these sum to the
-    CDP's collateral, after the keeper reward has been deducted from one of them), and the debt coins it
-    received are the per-deposit shares `Σ round(depᵢ/Σdep · debt)` of `min(debt, module debt balance)`. -/
+/-- `AuctionCollateral` (since bfd342e03): the debt shares handed to the deposits add up to exactly the debt to
+    distribute, no share exceeds what is left at its turn, and none is negative -/
+theorem C05_debt_split_exact (total debt : Int) :
+    (∀ (l : List (Acct × Int)) (remaining : Int), l ≠ [] → sumShares total debt remaining l = remaining) ∧
+    (∀ share remaining isLast, cappedShare share remaining isLast ≤ remaining) ∧
+    (∀ share remaining isLast, 0 ≤ share → 0 ≤ remaining → 0 ≤ cappedShare share remaining isLast) :=
+  ⟨sumShares_exact total debt, cappedShare_le, cappedShare_nonneg⟩
+
+/-- … hence `AuctionCollateral` can no longer fail for lack of debt coins (the begin-block panic of finding F2):
+    if the liquidator account holds the deposits' collateral and at least the debt to distribute, all sends succeed -/
+theorem C05_debt_split_never_short (cd : Denom) (total debt : Int) (hcd : cd ≠ DEBT) (ht : 0 < total) (hd : 0 ≤ debt)
+    (l : List (Acct × Int)) (remaining : Int) (s : St) (hpos : ∀ a v, (a, v) ∈ l → 0 < v)
+    (h0 : 0 ≤ remaining) (h1 : remaining ≤ s.bal MLIQ DEBT) (h2 : sumDeps l ≤ s.bal MLIQ cd) :
+    ∃ s', auctionDeps s cd total debt remaining l = .ok s' :=
+  auctionDeps_ok cd total debt hcd ht hd l remaining s hpos h0 h1 h2
+
+/-- "A seizure removes the whole position, and exactly its collateral (minus the keeper reward) and its debt
+    enter auctions": after `SeizeCollateral` the CDP, its deposits (and, by the invariant, both index entries) are
+    gone, the auction module received exactly the deposit records handed to the seizure (these sum to the CDP's
+    collateral, after the keeper reward has been deducted from one of them), and exactly
+    `min(debt, debt coins held by the cdp module)` debt coins — exactly the CDP's debt whenever the cdp module
+    holds that many (the `min` is `SeizeCollateral`'s own clamp against interest-rounding drift of the module's
+    debt-coin balance). -/
 theorem C05_seize_whole {E : Env} {g : Int} {s s' : St} {id : Nat} {c : Cdp} {deps : List (Acct × Int)}
     (hW : WF E) (hI : Inv E g s) (ho : s.cdp id = some c)
     (hsum : sumDeps deps = sumAcc E.accts (s.dep id))
-    (hkeys : ∀ a, s.dep id a ≠ 0 → a ∈ deps.map Prod.fst)
+    (hkeys : ∀ a, s.dep id a ≠ 0 → a ∈ deps.map Prod.fst) (hne : deps ≠ [])
     (h : seize E s id c deps = .ok s') :
     s'.cdp id = none ∧ (∀ a, s'.dep id a = 0) ∧ Inv E g s' ∧
     sumDeps deps = c.coll ∧
     s'.bal MAUC (denomOf E c.ty) = s.bal MAUC (denomOf E c.ty) + sumDeps deps ∧
-    s'.bal MAUC DEBT = s.bal MAUC DEBT +
-      sumCovered (sumDeps deps) (if c.prin + c.fees < s.bal MCDP DEBT then c.prin + c.fees else s.bal MCDP DEBT) deps := by
+    s'.bal MAUC DEBT = s.bal MAUC DEBT + (if c.prin + c.fees < s.bal MCDP DEBT then c.prin + c.fees else s.bal MCDP DEBT) ∧
+    (c.prin + c.fees ≤ s.bal MCDP DEBT → s'.bal MAUC DEBT = s.bal MAUC DEBT + (c.prin + c.fees)) := by
   have SP := seize_spec hW hI ho hsum hkeys h
-  exact ⟨SP.gone, SP.deps0, SP.inv, by rw [hsum]; exact (hI.coll.1 id c ho).symm, SP.aucColl, SP.aucDebt⟩
+  have hd := SP.aucDebt
+  rw [sumShares_exact _ _ deps _ hne] at hd
+  refine ⟨SP.gone, SP.deps0, SP.inv, by rw [hsum]; exact (hI.coll.1 id c ho).symm, SP.aucColl, hd, ?_⟩
+  intro hle
+  rw [hd]
+  split <;> omega
 
-/-- with a single deposit record the debt entering auctions is exactly the debt handed over -/
-theorem C05_seize_whole_single_deposit (a : Acct) (v debt : Int) (hv : 0 < v) :
-    sumCovered (sumDeps [(a, v)]) debt [(a, v)] = debt := by
-  have : sumDeps [(a, v)] = v := by simp [sumDeps]
-  rw [this]; exact sumCovered_single a v debt hv
-
-/-- FALSE for several deposits ("exactly … its debt enter auctions"): two equal deposits and the odd debt
-    10000003 give shares 5000002 + 5000002 = debt + 1 (each `0.5·debt` is rounded half-to-even, upward here).
-    The second `StartCollateralAuction` then lacks one debt coin: keeper liquidation fails, and in the begin
-    blocker the error is escalated to a panic (finding F2). -/
-theorem C05_seize_whole_counterexample :
-    sumCovered (sumDeps [(3, 1000000000), (4, 1000000000)]) 10000003 [(3, 1000000000), (4, 1000000000)] = 10000003 + 1 := by
+/-- the former witness (finding F2): two equal deposits of 10 and the odd debt 10000003 — the rounded shares
+    are 5000002 + 5000002, the capped shares 5000002 + 5000001 = the debt; on the state machine the begin block
+    after a price crash now succeeds and exactly the debt enters the auction module -/
+example : sumShares 2000000000 10000003 10000003 [(3, 1000000000), (4, 1000000000)] = 10000003 ∧
+    debtCovered 1000000000 2000000000 10000003 = 5000002 ∧
+    (beginBlock exEnv 102 false [Dec.one] exTwoDeposits).isOk = true ∧
+    (apply exEnv exTwoDeposits (.beginBlock 102 false [Dec.one])).bal MAUC DEBT = 10000003 ∧
+    ((apply exEnv exTwoDeposits (.beginBlock 102 false [Dec.one])).cdp 1).isNone = true := by
   decide +kernel
-
-/-- the rounding of each share is at most half a unit, so the total is off by at most #deposits/2 -/
-theorem C05_seize_whole_partial (v total debt : Int) (hv : 0 ≤ v) (ht : 0 < total) (hd : 0 ≤ debt) :
-    2 * (debtCovered v total debt * P - (Dec.mul (Dec.quo (Dec.ofInt v) (Dec.ofInt total)) (Dec.ofInt debt)).m) ≤ P ∧
-    2 * ((Dec.mul (Dec.quo (Dec.ofInt v) (Dec.ofInt total)) (Dec.ofInt debt)).m - debtCovered v total debt * P) ≤ P := by
-  unfold debtCovered
-  have hq : 0 ≤ (Dec.quo (Dec.ofInt v) (Dec.ofInt total)).m := by
-    obtain ⟨T, -, -, -, -, -, h⟩ := quo_spec (Dec.ofInt v) (Dec.ofInt total)
-      (by simp only [Dec.ofInt]; exact Int.mul_nonneg hv (by decide))
-      (by simp only [Dec.ofInt]; exact Int.mul_pos ht P_pos)
-    exact h
-  have hm : 0 ≤ (Dec.quo (Dec.ofInt v) (Dec.ofInt total)).m * (Dec.ofInt debt).m :=
-    Int.mul_nonneg hq (by simp only [Dec.ofInt]; exact Int.mul_nonneg hd (by decide))
-  obtain ⟨-, -, hnn⟩ := mul_spec _ _ hm
-  exact chopRound_nonneg_bound _ hnn
 
 end KV.Cdp
